@@ -190,6 +190,45 @@ func To(v V) types.MalType {
 	panic("val.To: cannot build kind " + v.K.String())
 }
 
+// ToZero is To with every empty collection left as its Go zero value (nil slice, nil map),
+// which is what an embedder gets from types.List{}, types.HashMap{} or types.Set{}.
+func ToZero(v V) types.MalType {
+	switch v.K {
+	case List:
+		if len(v.L) == 0 {
+			return types.List{}
+		}
+		out := make([]types.MalType, len(v.L))
+		for i, e := range v.L {
+			out[i] = ToZero(e)
+		}
+		return types.List{Val: out}
+	case Vec:
+		if len(v.L) == 0 {
+			return types.Vector{}
+		}
+		out := make([]types.MalType, len(v.L))
+		for i, e := range v.L {
+			out[i] = ToZero(e)
+		}
+		return types.Vector{Val: out}
+	case Map:
+		if len(v.M) == 0 {
+			return types.HashMap{}
+		}
+		m := make(map[string]types.MalType, len(v.M))
+		for k, e := range v.M {
+			m[k] = ToZero(e)
+		}
+		return types.HashMap{Val: m}
+	case Set:
+		if len(v.St) == 0 {
+			return types.Set{}
+		}
+	}
+	return To(v)
+}
+
 // Eq is strict structural equality: list != vector, nil != ().
 func Eq(a, b V) bool { return eq(a, b, false) }
 
